@@ -247,9 +247,6 @@ Section Fwd.
   Definition wf (C : cfg) : Prop :=
     stack_ok (c_states C) (c_chars C) /\ forall a, c_cand C = Some a -> In a syms.
 
-  (* the forward refinement needs more: no symbol on the char stack lies below the whole alphabet
-     (see succ_not_first; the code re-generates a proper prefix of the start word otherwise) *)
-  Definition above_first (C : cfg) : Prop := Forall (fun c => first <= c) (c_chars C).
 
   Definition pending (C : cfg) : Prop := c_cand C = Some first /\ c_yield C = true.
 
@@ -377,12 +374,19 @@ Section Fwd.
   Lemma not_pending_succ ss cs a y : first <= a -> ~ pending (mkcfg ss cs (next_sym syms false a) y).
   Proof. intros Ha [Hc _]. simpl in Hc. exact (succ_not_first a first Ha Hc eq_refl). Qed.
 
+  (* back at the parent (366d64a): should_yield is false exactly when the candidate is the first symbol *)
+  Lemma not_pending_back ss cs n : ~ pending (mkcfg ss cs n (negb (eqb_opt Nat.eqb n (Some first)))).
+  Proof.
+    intros [Hc Hy]. simpl in Hc, Hy. subst n.
+    rewrite (eqb_ok_refl _ (eqb_opt_ok Nat.eqb eqb_nat_ok)) in Hy. discriminate.
+  Qed.
+
   (* one loop iteration preserves well-formedness and the invariant *)
   Lemma step_correct out C y C' :
-    wf C -> above_first C -> Inv out C -> mstep m co syms first false lo ohi C = Ok (y, C') ->
-    wf C' /\ above_first C' /\ Inv (out ++ y) C'.
+    wf C -> Inv out C -> mstep m co syms first false lo ohi C = Ok (y, C') ->
+    wf C' /\ Inv (out ++ y) C'.
   Proof.
-    intros [Hst Hcand] Hab Hinv H. unfold mstep in H.
+    intros [Hst Hcand] Hinv H. unfold mstep in H.
     destruct (stack_top _ _ Hst) as [below Ess]. rewrite Ess in H. cbv zeta in H. simpl negb in H.
     remember (emit m lo ohi C (run (rev (c_chars C))) true (eqb_opt Nat.eqb (c_cand C) (Some first))) as y1 eqn:Ey1.
     assert (Hemit0 : emit m lo ohi C (run (rev (c_chars C))) false true = []) by reflexivity.
@@ -396,11 +400,10 @@ Section Fwd.
       revert H.
       destruct (in_co co (ostep m (run p) a) && can_descend ohi (length (c_chars C))) eqn:Evi; intro H.
       + (* descend *)
-        inversion H; subst y C'; clear H. split; [|split].
+        inversion H; subst y C'; clear H. split.
         * split; simpl.
           -- split; [|rewrite <- Ess; exact Hst]. fold p. rewrite dfa_run_app. reflexivity.
           -- intros x Hx. inversion Hx; subst. exact Hfirst_in.
-        * unfold above_first. simpl. constructor; [apply Hfirst; exact Ha|exact Hab].
         * rewrite Ey1. apply (inv_advance out C _ (fun _ => False)); [exact Hinv| |tauto].
           intros w Hw. unfold inP. simpl c_chars. simpl c_cand. rewrite Ec. unfold apos. rewrite Hpa. fold p. simpl lt_pos.
           assert (Hpend : pending (mkcfg (ostep m (run p) a :: c_states C) (a :: c_chars C) (Some first) true))
@@ -420,10 +423,9 @@ Section Fwd.
       + (* next sibling *)
         inversion H; subst y C'; clear H.
         assert (Hfa : first <= a) by (apply Hfirst; exact Ha).
-        split; [|split].
+        split.
         * split; simpl; [rewrite <- Ess; exact Hst|].
           intros x Hx. destruct (next_sym_fwd_some _ Hss _ _ Hx) as [Hb _]. exact Hb.
-        * exact Hab.
         * rewrite Ey1.
           apply (inv_advance out C _ (fun w => is_prefix (p ++ [a]) w)); [exact Hinv| |].
           -- intros w Hw. unfold inP. simpl c_chars. simpl c_cand. rewrite Ec.
@@ -441,19 +443,19 @@ Section Fwd.
     - (* no candidate left: return to the parent *)
       assert (Hy1 : y1 = []).
       { rewrite Ey1. unfold emit. simpl. rewrite ?andb_false_r. reflexivity. }
-      clear Ey1. subst y1. unfold p in *. clear p. unfold above_first in *.
-      revert H Hst Hab Hinv. destruct (c_chars C) as [|a cs] eqn:Ecs; intros H Hst Hab Hinv; [discriminate|].
-      inversion H; subst y C'; clear H. simpl app. rewrite app_nil_r.
-      simpl in Hst. rewrite Ess in Hst. destruct Hst as [_ Hst]. inversion Hab as [|? ? Hfa Hab']; subst.
-      split; [|split].
+      clear Ey1. subst y1. unfold p in *. clear p.
+      revert H Hst Hinv. destruct (c_chars C) as [|a cs] eqn:Ecs; intros H Hst Hinv; [discriminate|].
+      cbv zeta in H. inversion H; subst y C'; clear H. simpl app. rewrite app_nil_r.
+      simpl in Hst. rewrite Ess in Hst. destruct Hst as [_ Hst].
+      set (nxt := next_sym syms false a) in *.
+      split.
       + split; simpl; [exact Hst|].
         intros x Hx. destruct (next_sym_fwd_some _ Hss _ _ Hx) as [Hb _]. exact Hb.
-      + exact Hab'.
       + destruct Hinv as [Hs [Hc HA]].
-        assert (Heq : forall w, inP (mkcfg below cs (next_sym syms false a) true) w <-> inP C w).
+        assert (Heq : forall w, inP (mkcfg below cs nxt (negb (eqb_opt Nat.eqb nxt (Some first)))) w <-> inP C w).
         { intro w. unfold inP. rewrite Ecs, Ec. simpl c_chars. simpl c_cand.
-          rewrite (apos_none_cons syms a cs).
-          pose proof (not_pending_succ below cs a true Hfa) as Hnp.
+          rewrite (apos_none_cons syms a cs). fold nxt.
+          pose proof (not_pending_back below cs nxt) as Hnp.
           assert (Hnp' : ~ pending C) by (intros [Hx _]; congruence).
           tauto. }
         split; [exact Hs|split].
@@ -461,7 +463,7 @@ Section Fwd.
         * intros w Hw Hn. apply HA; [exact Hw|]. rewrite <- Heq. exact Hn.
   Qed.
 
-  Lemma loop_correct : forall f C out l, wf C -> above_first C -> Inv out C ->
+  Lemma loop_correct : forall f C out l, wf C -> Inv out C ->
     mloop m co syms first false lo ohi f C = Ok l ->
     StronglySorted lex_lt (out ++ l) /\ forall w, In w (out ++ l) <-> spec w.
   Proof.
@@ -472,7 +474,7 @@ Section Fwd.
       unfold emit in H. simpl in H. inversion H; subst l. rewrite app_nil_r. split; [exact Hs|].
       intro w. rewrite Hc. unfold inP, pending. rewrite Ecs, Ec. simpl. split; [tauto|].
       intro H1. split; [exact H1|]. split; [exact I|]. intros [[H2 _] _]. discriminate. }
-    induction f as [|f IH]; intros C out l Hwf Hab Hinv H; simpl in H.
+    induction f as [|f IH]; intros C out l Hwf Hinv H; simpl in H.
     - destruct (c_chars C) eqn:Ecs; destruct (c_cand C) eqn:Ec; try discriminate.
       apply (Hexit C); assumption.
     - destruct (c_chars C) eqn:Ecs; destruct (c_cand C) eqn:Ec;
@@ -480,8 +482,8 @@ Section Fwd.
         (destruct (mstep m co syms first false lo ohi C) as [[y C']|e] eqn:Est; simpl in H; [|discriminate];
          destruct (mloop m co syms first false lo ohi f C') as [l'|e] eqn:El; simpl in H; [|discriminate];
          inversion H; subst l;
-         destruct (step_correct out C y C' Hwf Hab Hinv Est) as [Hwf' [Hab' Hinv']];
-         rewrite app_assoc; exact (IH C' (out ++ y) l' Hwf' Hab' Hinv' El)).
+         destruct (step_correct out C y C' Hwf Hinv Est) as [Hwf' Hinv'];
+         rewrite app_assoc; exact (IH C' (out ++ y) l' Hwf' Hinv' El)).
   Qed.
 End Fwd.
 
@@ -521,17 +523,15 @@ Proof.
     destruct start as [[|c s]|]; destruct strict; reflexivity.
 Qed.
 
-(* Hypothesis on the start word: none of its symbols lies below the whole alphabet (symbols inside,
-   between and above the alphabet's are fine).  It cannot be dropped: the code (e6d88f7) is wrong
-   there - open finding successor_foreign_symbol_below_alphabet. *)
+(* nothing is assumed about the start word: its symbols may lie inside, below, between or above
+   the alphabet's *)
 Theorem machine_forward_correct fuel m start strict lo ohi l :
   valid_dfa m = true ->
   (ohi = None -> finite_lang (L_dfa m)) ->
-  (forall s, start = Some s -> Forall (fun a => exists y, In y (d_syms m) /\ y <= a) s) ->
   succ_machine fuel m start strict false lo ohi = Ok l ->
   l = succ_list m start strict lo (the_hi m ohi).
 Proof.
-  intros Hv Hfin Hstart H. unfold succ_machine in H. simpl in H.
+  intros Hv Hfin H. unfold succ_machine in H. simpl in H.
   destruct (coreach_states_ok m Hv) as [co [Eco Hco]]. rewrite Eco in H. simpl in H.
   unfold machine_syms in H.
   pose proof (set_of_sorted (d_syms m)) as Hss.
@@ -548,10 +548,6 @@ Proof.
     - intros a Ha. inversion Ha; subst. exact Hfin_in.
     - reflexivity.
     - intros a Ha. inversion Ha; subst. exact Hfin_in. }
-  assert (Hab : above_first first C0).
-  { unfold C0, init_cfg, above_first. destruct start as [s|]; simpl; [|constructor].
-    apply Forall_rev. specialize (Hstart s eq_refl). rewrite Forall_forall in *.
-    intros a Ha. destruct (Hstart a Ha) as [y [Hy Hle]]. apply Hsy in Hy. specialize (Hfirst y Hy). lia. }
   assert (Hinv : Inv m start strict lo ohi (first :: rest) first [] C0).
   { unfold C0, init_cfg. destruct start as [s|].
     - split; [constructor|]. unfold inP, pending. simpl. rewrite rev_involutive. split.
@@ -578,6 +574,6 @@ Proof.
         destruct H1 as [H1|H1]; [exact (lex_lt_nil_r _ H1)|]. apply H2. split; [split; reflexivity|exact H1].
       + intros w _ _. exact I. }
   destruct (loop_correct m Hv start strict lo ohi Hfin co Hco (first :: rest) Hss Hsy first Hfirst Hfin_in
-              fuel C0 [] l Hwf Hab Hinv H) as [Hsorted Hmem].
+              fuel C0 [] l Hwf Hinv H) as [Hsorted Hmem].
   simpl in Hsorted, Hmem. apply (succ_list_unique m Hv); assumption.
 Qed.
